@@ -21,6 +21,7 @@ import (
 	"sort"
 	"strconv"
 	"strings"
+	"time"
 
 	"github.com/whoisnian/glb/httpd"
 	"github.com/whoisnian/glb/logger"
@@ -52,9 +53,12 @@ var routePool = []route{
 	{"/s", "*", nil},
 	{"/v/:b", "*", []string{"b"}},
 	{"/u/:x", "*", []string{"x"}},
+	// many parameters (whatever switches representation beyond a handful)
+	{"/m/:a/:b/:c/:d/:e/:x/:y/:m8/:m9", "GET", []string{"a", "b", "c", "d", "e", "x", "y", "m8", "m9"}},
+	{"/n/:m1/:m2/:m3/:m4/:m5/:m6/:m7/:m8/:m9/:m10/:m11/:m12/:a", "*", []string{"m1", "m2", "m3", "m4", "m5", "m6", "m7", "m8", "m9", "m10", "m11", "m12", "a"}},
 }
 
-var allNames = []string{"a", "b", "c", "d", "e", "x", "y", "unused"}
+var allNames = []string{"a", "b", "c", "d", "e", "x", "y", "unused", "m1", "m8", "m9", "m12"}
 
 type harnessPanic struct{ token string }
 
@@ -346,7 +350,20 @@ func (w *world) genPath() (string, string) {
 	ch := simrt.Choose
 	seg := func() string { return []string{"1", "2", "zz", "u", "x", "t"}[ch("path.seg", 6)] }
 	method := []string{"GET", "POST", "DELETE"}[ch("req.method", 3)]
-	switch ch("path.kind", 13) {
+	segs := func(n int) string {
+		var b strings.Builder
+		for i := 0; i < n; i++ {
+			b.WriteString("/" + seg())
+		}
+		return b.String()
+	}
+	switch ch("path.kind", 16) {
+	case 13:
+		return method, "/m" + segs(9)
+	case 14:
+		return method, "/n" + segs(13)
+	case 15:
+		return method, "/m" + segs(7) // partial match of the long route, then nothing
 	case 0:
 		return method, "/"
 	case 1:
@@ -569,12 +586,18 @@ func strip(o *obs) obs {
 type logSink struct {
 	w    *world
 	data [][]byte
+	slow bool
 }
 
 func (s *logSink) Write(p []byte) (int, error) {
 	s.data = append(s.data, append([]byte(nil), p...))
 	for i := simrt.Choose("sink.slow", 3); i > 0; i-- {
 		simrt.Yield("sink")
+	}
+	if s.slow {
+		// a destination that takes its time (a pipe to a slow reader): whoever
+		// writes holds the log mutex meanwhile and everybody else queues up
+		simrt.Sleep(time.Millisecond)
 	}
 	return len(p), nil
 }
@@ -757,6 +780,13 @@ func (w *world) c15Handler(store *httpd.Store) {
 	r.obs.Handlers++
 	b := r.beh
 	r.resp.fail = b.failBody
+	if w.sink != nil && w.sink.slow {
+		// storm: every handler first waits for the same slow backend, so they
+		// all come back - and most of them fail - at about the same time
+		// (until the next multiple of 250 ms of simulated time)
+		const tick = int64(250 * time.Millisecond)
+		simrt.Sleep(time.Duration(tick - simrt.Elapsed()%tick))
+	}
 	if b.emptyFirst {
 		simrt.Probe("zero_length_first_write")
 		store.W.Write(nil)
@@ -809,8 +839,15 @@ func (w *world) mainC15() {
 	w.lkind = ch("cfg.handler", 3)
 	level := []int{0, 4}[ch("cfg.threshold", 2)]
 	clients := 1 + ch("cfg.clients", 6)
-	w.cfg = map[string]any{"handler": []string{"nano", "text", "json"}[w.lkind], "threshold": level, "clients": clients}
-	w.sink = &logSink{w: w}
+	// one run in twelve is a storm: many clients at once, most of their
+	// handlers panicking (whatever Relay keeps per panic in flight is exhausted)
+	storm := ch("cfg.storm", 12) == 11
+	if storm {
+		simrt.Probe("panic_storm")
+		clients = 18 + ch("cfg.storm.clients", 8)
+	}
+	w.cfg = map[string]any{"handler": []string{"nano", "text", "json"}[w.lkind], "threshold": level, "clients": clients, "storm": storm}
+	w.sink = &logSink{w: w, slow: storm}
 	opts := logger.NewOptions(logger.LevelDebug+0, false, false)
 	if level == 4 {
 		opts = logger.NewOptions(logger.LevelInfo, false, false)
@@ -844,9 +881,12 @@ func (w *world) mainC15() {
 			b.how = ch("beh.how", 3)
 			b.body = ch("beh.body", 2) == 1
 			b.panicAt = []int{0, 0, 1, 2, 3}[ch("beh.panic", 5)]
+			if storm {
+				b.panicAt = []int{1, 1, 2, 1, 0}[ch("beh.panic", 5)]
+			}
 			if b.panicAt != 0 {
 				b.panicVal = ch("beh.panic_value", 16)
-				b.deep = ch("beh.deep_panic", 5) == 0
+				b.deep = !storm && ch("beh.deep_panic", 5) == 0
 			}
 			b.failBody = ch("beh.client_gone", 6) == 0
 			if b.status == 0 && ch("beh.empty_first_write", 3) == 0 {
